@@ -15,9 +15,9 @@ use_repo()
 
 PARAMS = {
     "quick": [dict(orders="{0, 1, 2}", maxdim=2, alltargets="FALSE"),
-              dict(orders="{3}", maxdim=2, alltargets="TRUE", simulate=2500)],
+              dict(orders="{3}", maxdim=2, alltargets="TRUE", simulate=500)],
     "thorough": [dict(orders="{0, 1, 2}", maxdim=3, alltargets="TRUE"), dict(orders="{3}", maxdim=2, alltargets="FALSE"),
-                 dict(orders="{4}", maxdim=2, alltargets="TRUE", simulate=20000)],
+                 dict(orders="{4}", maxdim=2, alltargets="TRUE", simulate=3000)],
 }
 
 
